@@ -1,6 +1,7 @@
+\* 64-bit weights: every weight / total / estimate / cell is a wide natural (4 limbs of 20 bits, spec/WideNum.tla)
 SPECIFICATION TSpec
 CONSTANTS Ids = {} Items = {} Weights = {} Cfgs = {} MaxTotal = 0
  TierB = FALSE
 POSTCONDITION Accepted
-CONSTANT WideNums = FALSE
+CONSTANT WideNums = TRUE
 CHECK_DEADLOCK FALSE
